@@ -32,6 +32,7 @@ ASSUMPTIONS = [
     "pre-emption is modelled at source-line granularity inside pyoda_time/testing/_fake_clock.py (GIL: bytecodes of one line are not interleaved finer)",
     "SystemClock is bracketed by two time.time_ns() reads with 1 s tolerance",
 ]
+CASE_SCALE = {"stress": 40, "conc": 4}  # real threads / scheduled threads per case
 
 DAY = Z.DAY
 UNITS = {"nanoseconds": 1, "ticks": 100, "milliseconds": 10**6, "seconds": 10**9, "minutes": 60 * 10**9, "hours": 3600 * 10**9, "days": DAY}
